@@ -76,13 +76,16 @@ static Boolean IsWRegCore(char const* pArg, Word* pResult) {
     if ((strlen(pArg) < 2) || (as_toupper(*pArg) != 'S')) {
         retValue = False;
     } else {
-        Boolean OK;
+        Boolean  OK;
+        LargeInt Num = ConstLongInt(pArg + 1, &OK, 10);
 
-        *pResult = ConstLongInt(pArg + 1, &OK, 10);
-        if (!OK) {
+        /* compare before narrowing: s65551 is not s15 */
+
+        if (!OK || (Num < 0) || (Num > 15)) {
             retValue = False;
         } else {
-            retValue = (*pResult <= 15);
+            *pResult = (Word)Num;
+            retValue = True;
         }
     }
 #ifdef DEBUG_PRINTF
